@@ -5022,6 +5022,12 @@ class ParseCtx:
         Also, this is where we associate nodes with their containing macro.
         """
 
+        # nothing that follows an unconditional break or finish in the same block can ever run
+        for index, stmt in enumerate(stmts):
+            if isinstance(stmt, lark.Tree) and stmt.data in ("break_stmt", "finish_stmt", "custom_finish_stmt"):
+                stmts = stmts[:index + 1]
+                break
+
         next_node = None
         for stmt in reversed(stmts):
             node = self._parse_stmt(stmt)
